@@ -7,6 +7,7 @@ package gjkr
 
 import (
 	"fmt"
+	"os"
 	"math/big"
 	"sort"
 	"testing"
@@ -864,6 +865,12 @@ func c01Run(t *testing.T, r *verifsim.Run, mode string) {
 		if mb.err != nil {
 			r.Probe("honest-member-returned-error")
 			r.Logf("honest %d error: %v", idx, mb.err)
+			if os.Getenv("VERIF_STRICT_HONEST_ERRORS") != "" {
+				// diagnosis aid, off in registered checks: the statement only
+				// speaks about members that finish
+				r.Failf(mode+":honest-abort["+c01Normalize(mb.err.Error())+"]", "honest member %d aborted: %v", idx, mb.err)
+				return
+			}
 			if abortTag == "" {
 				abortTag = ":after-honest-abort[" + c01Normalize(mb.err.Error()) + "]"
 			}
